@@ -24,7 +24,7 @@ ASSUMPTIONS = ["5 worker processes with PYTHONHASHSEED in {0, 1, 42, 4242, 1 + V
                "function of the seed)", "process independence is compared strictly (no tie exception); order independence on index and "
                "probability (1e-9), path only when the probabilities differ by more than 1e-12 relative"]
 TOLERANCES = {"across_processes": "exact", "order_logprob": 1e-9}
-BUDGET = {"quick": {"shards": 4, "examples": 700}, "thorough": {"shards": 6, "examples": 8000}}
+BUDGET = {"quick": {"shards": 4, "examples": 550}, "thorough": {"shards": 6, "examples": 8000}}
 
 _workers = []
 
